@@ -270,6 +270,25 @@ pub fn check_api(b: &Built, rec: &Recorder, c: &mut Counters) -> u64 {
             }
         }
     }
+    // ---- slices in which a name is repeated (a valid call: the names exist)
+    for &x in &present {
+        for &y in &present {
+            for s in [vec![x, y, x], vec![x, x]] {
+                let ss = format!("{s:?}");
+                cx.call("has_nodes", ss.clone(), false, || v(g.has_nodes(&s)));
+                cx.call("get_subgraph", ss.clone(), false, || v(g.get_subgraph(&s)));
+                cx.call("get_edges_for_nodes", ss.clone(), false, || r(g.get_edges_for_nodes(&s)));
+                cx.call("get_in_edges_for_nodes", ss.clone(), false, || r(g.get_in_edges_for_nodes(&s)));
+                cx.call("get_out_edges_for_nodes", ss.clone(), false, || r(g.get_out_edges_for_nodes(&s)));
+                cx.call("multi_source", format!("false, {ss}, None, None, false, true"), false, || r(dijkstra::multi_source(g, false, s.clone(), None, None, false, true)));
+                cx.call("clustering", format!("false, Some({ss})"), false, || r(cluster::clustering(g, false, Some(&s))));
+                cx.call("average_clustering", format!("false, Some({ss}), true"), false, || r(cluster::average_clustering(g, false, Some(&s), true)));
+                cx.call("triangles", format!("Some({ss})"), false, || r(cluster::triangles(g, Some(&s))));
+                cx.call("generalized_degree", format!("Some({ss})"), false, || r(cluster::generalized_degree(g, Some(&s))));
+                cx.call("square_clustering", format!("Some({ss})"), false, || v(cluster::square_clustering(g, Some(&s))));
+            }
+        }
+    }
     // ---- indices
     for i in 0..=n + 1 {
         cx.call("get_node_by_index", format!("{i}"), i >= n, || o(g.get_node_by_index(&i)));
